@@ -202,3 +202,11 @@ RULES = [
     ("C15.b", "who may use the unsynchronised load; retrying read", rule_b),
     ("C15.c", "single writer by type", rule_c),
 ]
+
+
+def rule_mustpass(ctx):
+    from . import mustpass
+    mustpass.check(ctx, ['synccell-write-stores-value', 'synccell-write-closes-window'])
+
+
+RULES.append(("C15.e", "must-pass-through: no path around the effects this property rests on (added fast paths / early returns)", rule_mustpass))
